@@ -57,10 +57,10 @@ static void my_free(void *p) { free(p); }
 
 /* ---- fixtures (created fault-free) -------------------------------------------- */
 static vh_rng_t rng;
-#define NKEY 6
+#define NKEY 9
 static vh_key_t K[NKEY];
-static const char *KSPEC[NKEY] = { "oct:48", "rsa:2048", "ec:P-256", "okp:Ed25519", "ec:P-384", "okp:Ed448" };
-static const int KALG[NKEY] = { JWT_ALG_HS256, JWT_ALG_RS256, JWT_ALG_ES256, JWT_ALG_EDDSA, JWT_ALG_ES384, JWT_ALG_EDDSA };
+static const char *KSPEC[NKEY] = { "oct:48", "rsa:2048", "ec:P-256", "okp:Ed25519", "ec:P-384", "okp:Ed448", "ec:P-521", "oct:64", "rsa:3072" };
+static const int KALG[NKEY] = { JWT_ALG_HS256, JWT_ALG_RS256, JWT_ALG_ES256, JWT_ALG_EDDSA, JWT_ALG_ES384, JWT_ALG_EDDSA, JWT_ALG_ES512, JWT_ALG_HS512, JWT_ALG_PS384 };
 static char *JWK_PRIV[NKEY], *JWK_PUB[NKEY];
 static jwk_set_t *fixset[2];
 static const jwk_item_t *FPRIV[2][NKEY], *FPUB[2][NKEY];
@@ -325,7 +325,7 @@ int main(int argc, char **argv)
 	{
 		char nm[64];
 		int full = a.thorough;
-		for (int k = 0; k < (full ? NKEY : 4); k++) {
+		for (int k = 0; k < NKEY; k++) {
 			snprintf(nm, sizeof(nm), "load:%s:priv", KSPEC[k]); add_scen(nm, T_LOAD, 0, k, 0);
 			if (K[k].kind != VH_K_OCT) { snprintf(nm, sizeof(nm), "load:%s:pub", KSPEC[k]); add_scen(nm, T_LOAD, 0, k, 1); }
 			snprintf(nm, sizeof(nm), "load:set-with-%s", KSPEC[k]); add_scen(nm, T_LOAD, k & 1, k, 2);
@@ -340,16 +340,16 @@ int main(int argc, char **argv)
 		add_scen("config:checker", T_CONFIG, 0, 0, 1);
 		for (int p = 0; p < 2; p++) {
 			snprintf(nm, sizeof(nm), "generate:none:p%d", p); add_scen(nm, T_GEN, p, -1, 1);
-			for (int k = 0; k < (full ? NKEY : 4); k++) {
-				if (!full && p == 1 && k == 1) continue;
+			for (int k = 0; k < NKEY; k++) {
+				
 				snprintf(nm, sizeof(nm), "generate:%s:plain:p%d", vh_alg_name(KALG[k]), p); add_scen(nm, T_GEN, p, k, 0);
 				snprintf(nm, sizeof(nm), "generate:%s:claims+cb:p%d", vh_alg_name(KALG[k]), p); add_scen(nm, T_GEN, p, k, 3);
 				if (k == 1) { snprintf(nm, sizeof(nm), "generate:PS256:p%d", p); add_scen(nm, T_GEN, p, k, 2); }
 			}
-			for (int k = 0; k < (full ? NKEY : 4); k++)
+			for (int k = 0; k < NKEY; k++)
 				for (int v = 0; v < 5; v++) {
 					static const char *VN[5] = { "valid", "bad-signature", "expired", "wrong-iss", "none-with-key" };
-					if (!full && (p == 1 && k == 1)) continue;
+					
 					snprintf(nm, sizeof(nm), "verify:%s:%s:p%d", vh_alg_name(KALG[k]), VN[v], p); add_scen(nm, T_VERIFY, p, k, v);
 				}
 			snprintf(nm, sizeof(nm), "verify:none:valid:p%d", p); add_scen(nm, T_VERIFY, p, -1, 0);
